@@ -13,7 +13,9 @@ pub fn delta_encode(ids: &[u64]) -> Vec<u64> {
     result.push(ids[0]);
 
     for window in ids.windows(2) {
-        result.push(window[1].saturating_sub(window[0]));
+        // Wrapping difference: identical bytes for sorted input, and still exact when the
+        // list is not sorted (the decoder adds with the same wrap-around).
+        result.push(window[1].wrapping_sub(window[0]));
     }
 
     result
@@ -31,7 +33,7 @@ pub fn delta_decode(deltas: &[u64]) -> Vec<u64> {
     result.push(current);
 
     for &delta in &deltas[1..] {
-        current = current.saturating_add(delta);
+        current = current.wrapping_add(delta);
         result.push(current);
     }
 
